@@ -250,6 +250,25 @@ func runC14(r *h.Run) {
 				r.Violate("process-left-behind", ctx+" expect="+expect, "the refused plugin is still running")
 			}
 		}
+		// a refused pairing stays refused: the same client asked again must not
+		// hand out the connection it refused
+		if launch != "reattach" {
+			s2 := r.DoNoHang("Start#2", 90*time.Second, ctx, func() (any, error) { return cl.Start() })
+			if !s2.Hung && s2.Err == nil {
+				r.Violate("incompatible-accepted", ctx+" expect="+expect+" second-start", fmt.Sprintf("the first Start refused the plugin (%v), the second Start on the same client succeeded", so.Err))
+			}
+			if p := cl.Protocol(); p != plugin.ProtocolInvalid && s2.Err != nil {
+				r.Violate("incompatible-accepted", ctx+" expect="+expect+" protocol-after-refusal", fmt.Sprintf("a client whose Start was refused reports protocol %q", p))
+			}
+			if rc := cl.ReattachConfig(); rc != nil {
+				r.Violate("incompatible-accepted", ctx+" expect="+expect+" reattach-config-after-refusal", "a client whose Start was refused hands out a ReattachConfig")
+			}
+			c2 := r.DoNoHang("Client(after-refusal)", 90*time.Second, ctx, func() (any, error) { return cl.Client() })
+			if !c2.Hung && c2.Err == nil {
+				r.Violate("incompatible-accepted", ctx+" expect="+expect+" client-after-refusal", "Client() on a client whose Start was refused returned a client")
+			}
+			r.DoNoHang("Kill(after-refusal)", 120*time.Second, ctx, func() (any, error) { cl.Kill(); return nil, nil })
+		}
 		return
 	}
 	if so.Err != nil {
